@@ -368,6 +368,14 @@ theorem roundtrip_nfc_counterexample :
     fromCty ⟨.string, .s "\u00e9"⟩ .str = .ok (.str "\u00e9") :=
   ⟨rfl, rfl, rfl, rfl⟩
 
+/-- … and so does a map key -/
+theorem roundtrip_nfc_key_counterexample :
+    hasTy (.map ["e\u0301"] [.bool true]) (.map .bool) = true ∧
+    bridgeType nfcSample (.map .bool) = .ok (.map .bool) ∧
+    toCty nfcSample (.map ["e\u0301"] [.bool true]) (.map .bool) = .ok ⟨.map .bool, .smap ["\u00e9"] [.b true]⟩ ∧
+    fromCty ⟨.map .bool, .smap ["\u00e9"] [.b true]⟩ (.map .bool) = .ok (.map ["\u00e9"] [.bool true]) :=
+  ⟨rfl, rfl, rfl, rfl⟩
+
 /-- hence the unconditional statement does not hold -/
 theorem roundtripAll_false : ¬ RoundtripAll := by
   intro h
